@@ -98,6 +98,7 @@ pub fn generate(run_seed: u64, corpus: &Corpus, sw: &Swarm, i: u64, exhaustive: 
         client,
         peeks,
         extra_calls: r.below(3) as u8,
+        keep_tags: r.chance(1, 8),
         ..Case::default()
     }
 }
@@ -328,7 +329,7 @@ fn loader_direct(case: &Case, prep: &Prepared, node: u8, via: u8) -> DriveResult
 }
 
 pub fn execute(case: &Case, record_seed: Option<u64>) -> Outcome {
-    let prep = Prepared::new(&case.text, case.eof_at);
+    let prep = Prepared::new(&case.text, case.eof_at, case.keep_tags);
     let n = prep.n_chars;
     let tape = match record_seed {
         Some(s) => Tape::record(s),
